@@ -1,4 +1,4 @@
-CONSTANTS G = {1, 2, 3}  NE = 45  K = @K@  Drain = TRUE
+CONSTANTS G = {1, 2, 3}  NE = 45  K = @K@  Drain = TRUE  SignalFirst = FALSE
 SPECIFICATION TraceSpec
 INVARIANTS TypeOK OnceEach OrderPerGoroutine FlushComplete
 CONSTRAINT HighWater
